@@ -15,10 +15,10 @@ func init() {
 		DesignRef: "DESIGN.md §5 C21",
 		Level: "Decides that the ring, the per-series index, the write cursor and the out-of-order window are only touched under the storage lock (write lock for writers), that AddExemplar validates before it mutates and returns the validation error, " +
 			"that the only slot ever evicted by an append is the one at the write cursor, that once a slot was evicted every path inserts the new exemplar there, advances the cursor and counts the append (a duplicate is recognised before the eviction, never after), and that every accepted exemplar is linked into its series' list in one of the four position cases.",
-		Note:     "Trusted: go/packages, go/types, go/cfg; receiver-insensitive lock identification; rule tables in checker/c21.go.",
-		Covers:   "CircularExemplarStorage.AddExemplar, validateExemplar call order, removeExemplar/removeIndex/findInsertionIndex callers, lockset of exemplars/index/nextIndex/oooTimeWindowMillis.",
-		NotCover: "the linked-list order inside a series, the duplicate and window comparisons, Resize's copy arithmetic, Select's range filtering.",
-		Run:      runC21,
+		Note:           "Trusted: go/packages, go/types, go/cfg; receiver-insensitive lock identification; rule tables in checker/c21.go.",
+		Covers:         "CircularExemplarStorage.AddExemplar, validateExemplar call order, removeExemplar/removeIndex/findInsertionIndex callers, lockset of exemplars/index/nextIndex/oooTimeWindowMillis.",
+		NotCover:       "the linked-list order inside a series, the duplicate and window comparisons, Resize's copy arithmetic, Select's range filtering.",
+		Run:            runC21,
 		MinObligations: 18,
 	})
 }
